@@ -367,6 +367,27 @@ func runC20(c *Ctx) {
 			}
 		}
 		r.Count("wide_levels_checked", int64(len(wide)))
+		// the forward direction for the same integers, and for every
+		// n<<32 + k whose low word is one of the named levels: every level
+		// outside the named ones must be refused
+		fwd := append([]int64(nil), wide...)
+		for _, n := range []int64{1, 2, 3, 255, -1, -2, 1 << 20, 1<<31 - 1, -(1 << 31)} {
+			for k := int64(0); k <= 8; k++ {
+				fwd = append(fwd, n<<32+k)
+			}
+		}
+		for _, w := range fwd {
+			if w >= -8 && w <= 64 {
+				continue // the exhaustive part above
+			}
+			r.Eval(1)
+			got, err := dblib.ASEIsolationLevelFromGo(sql.IsolationLevel(w))
+			if err == nil {
+				r.Violate("forward/unknown-accepted/wide", fmt.Sprintf("ASEIsolationLevelFromGo(%d) = %d (%s), nil; want an error: %d is none of the named levels", w, int64(got), got, w), map[string]int64{"sql": w})
+				break
+			}
+		}
+		r.Count("wide_forward_levels_checked", int64(len(fwd)))
 	}
 	// ---- there and back
 	for _, sl := range []sql.IsolationLevel{sql.LevelReadUncommitted, sql.LevelReadCommitted, sql.LevelRepeatableRead, sql.LevelSerializable} {
